@@ -1632,3 +1632,180 @@ func lemmaC12_rx1_channel_total_CN470(rep bool, i int) {
 	_, err2 := b.GetDownlinkChannel(j)
 	verifAssert(err2 == nil, "rx1-channel-exists")
 }
+
+// ---------------------------------------------------------------------------
+// C10: two band objects built by separate constructor calls share no mutable state: adding,
+// disabling and enabling channels on one is invisible through the other
+// ---------------------------------------------------------------------------
+func lemmaC10_isolation_EU868(rep bool, f uint32, lo, hi, j, i int) {
+	b1, _ := newEU863Band(rep)
+	b2, _ := newEU863Band(rep)
+	before, errb := b2.GetUplinkChannel(i)
+	_ = b1.AddChannel(f, lo, hi)
+	_ = b1.DisableUplinkChannelIndex(j)
+	_ = b1.EnableUplinkChannelIndex(j + 1)
+	after, erra := b2.GetUplinkChannel(i)
+	verifAssert((errb == nil) == (erra == nil), "same-outcome")
+	verifAssert(errb != nil || before == after, "unchanged")
+}
+
+func lemmaC10_isolation_US915(rep bool, f uint32, lo, hi, j, i int) {
+	b1, _ := newUS902Band(rep)
+	b2, _ := newUS902Band(rep)
+	before, errb := b2.GetUplinkChannel(i)
+	_ = b1.AddChannel(f, lo, hi)
+	_ = b1.DisableUplinkChannelIndex(j)
+	_ = b1.EnableUplinkChannelIndex(j + 1)
+	after, erra := b2.GetUplinkChannel(i)
+	verifAssert((errb == nil) == (erra == nil), "same-outcome")
+	verifAssert(errb != nil || before == after, "unchanged")
+}
+
+func lemmaC10_isolation_EU433(rep bool, f uint32, lo, hi, j, i int) {
+	b1, _ := newEU433Band(rep)
+	b2, _ := newEU433Band(rep)
+	before, errb := b2.GetUplinkChannel(i)
+	_ = b1.AddChannel(f, lo, hi)
+	_ = b1.DisableUplinkChannelIndex(j)
+	_ = b1.EnableUplinkChannelIndex(j + 1)
+	after, erra := b2.GetUplinkChannel(i)
+	verifAssert((errb == nil) == (erra == nil), "same-outcome")
+	verifAssert(errb != nil || before == after, "unchanged")
+}
+
+func lemmaC10_isolation_CN779(rep bool, f uint32, lo, hi, j, i int) {
+	b1, _ := newCN779Band(rep)
+	b2, _ := newCN779Band(rep)
+	before, errb := b2.GetUplinkChannel(i)
+	_ = b1.AddChannel(f, lo, hi)
+	_ = b1.DisableUplinkChannelIndex(j)
+	_ = b1.EnableUplinkChannelIndex(j + 1)
+	after, erra := b2.GetUplinkChannel(i)
+	verifAssert((errb == nil) == (erra == nil), "same-outcome")
+	verifAssert(errb != nil || before == after, "unchanged")
+}
+
+func lemmaC10_isolation_IN865(rep bool, f uint32, lo, hi, j, i int) {
+	b1, _ := newIN865Band(rep)
+	b2, _ := newIN865Band(rep)
+	before, errb := b2.GetUplinkChannel(i)
+	_ = b1.AddChannel(f, lo, hi)
+	_ = b1.DisableUplinkChannelIndex(j)
+	_ = b1.EnableUplinkChannelIndex(j + 1)
+	after, erra := b2.GetUplinkChannel(i)
+	verifAssert((errb == nil) == (erra == nil), "same-outcome")
+	verifAssert(errb != nil || before == after, "unchanged")
+}
+
+func lemmaC10_isolation_KR920(rep bool, f uint32, lo, hi, j, i int) {
+	b1, _ := newKR920Band(rep)
+	b2, _ := newKR920Band(rep)
+	before, errb := b2.GetUplinkChannel(i)
+	_ = b1.AddChannel(f, lo, hi)
+	_ = b1.DisableUplinkChannelIndex(j)
+	_ = b1.EnableUplinkChannelIndex(j + 1)
+	after, erra := b2.GetUplinkChannel(i)
+	verifAssert((errb == nil) == (erra == nil), "same-outcome")
+	verifAssert(errb != nil || before == after, "unchanged")
+}
+
+func lemmaC10_isolation_RU864(rep bool, f uint32, lo, hi, j, i int) {
+	b1, _ := newRU864Band(rep)
+	b2, _ := newRU864Band(rep)
+	before, errb := b2.GetUplinkChannel(i)
+	_ = b1.AddChannel(f, lo, hi)
+	_ = b1.DisableUplinkChannelIndex(j)
+	_ = b1.EnableUplinkChannelIndex(j + 1)
+	after, erra := b2.GetUplinkChannel(i)
+	verifAssert((errb == nil) == (erra == nil), "same-outcome")
+	verifAssert(errb != nil || before == after, "unchanged")
+}
+
+func lemmaC10_isolation_ISM2400(rep bool, f uint32, lo, hi, j, i int) {
+	b1, _ := newISM2400Band(rep)
+	b2, _ := newISM2400Band(rep)
+	before, errb := b2.GetUplinkChannel(i)
+	_ = b1.AddChannel(f, lo, hi)
+	_ = b1.DisableUplinkChannelIndex(j)
+	_ = b1.EnableUplinkChannelIndex(j + 1)
+	after, erra := b2.GetUplinkChannel(i)
+	verifAssert((errb == nil) == (erra == nil), "same-outcome")
+	verifAssert(errb != nil || before == after, "unchanged")
+}
+
+func lemmaC10_isolation_CN470(rep bool, f uint32, lo, hi, j, i int) {
+	b1, _ := newCN470Band(rep)
+	b2, _ := newCN470Band(rep)
+	before, errb := b2.GetUplinkChannel(i)
+	_ = b1.AddChannel(f, lo, hi)
+	_ = b1.DisableUplinkChannelIndex(j)
+	_ = b1.EnableUplinkChannelIndex(j + 1)
+	after, erra := b2.GetUplinkChannel(i)
+	verifAssert((errb == nil) == (erra == nil), "same-outcome")
+	verifAssert(errb != nil || before == after, "unchanged")
+}
+
+func lemmaC10_isolation_AS923(rep bool, dt lorawan.DwellTime, f uint32, lo, hi, j, i int) {
+	verifAssume(dt == lorawan.DwellTimeNoLimit || dt == lorawan.DwellTime400ms)
+	b1, _ := newAS923Band(rep, dt, 0, "")
+	b2, _ := newAS923Band(rep, dt, 0, "")
+	before, errb := b2.GetUplinkChannel(i)
+	_ = b1.AddChannel(f, lo, hi)
+	_ = b1.DisableUplinkChannelIndex(j)
+	_ = b1.EnableUplinkChannelIndex(j + 1)
+	after, erra := b2.GetUplinkChannel(i)
+	verifAssert((errb == nil) == (erra == nil), "same-outcome")
+	verifAssert(errb != nil || before == after, "unchanged")
+}
+
+func lemmaC10_isolation_AS923_2(rep bool, dt lorawan.DwellTime, f uint32, lo, hi, j, i int) {
+	verifAssume(dt == lorawan.DwellTimeNoLimit || dt == lorawan.DwellTime400ms)
+	b1, _ := newAS923Band(rep, dt, -1800000, "-2")
+	b2, _ := newAS923Band(rep, dt, -1800000, "-2")
+	before, errb := b2.GetUplinkChannel(i)
+	_ = b1.AddChannel(f, lo, hi)
+	_ = b1.DisableUplinkChannelIndex(j)
+	_ = b1.EnableUplinkChannelIndex(j + 1)
+	after, erra := b2.GetUplinkChannel(i)
+	verifAssert((errb == nil) == (erra == nil), "same-outcome")
+	verifAssert(errb != nil || before == after, "unchanged")
+}
+
+func lemmaC10_isolation_AS923_3(rep bool, dt lorawan.DwellTime, f uint32, lo, hi, j, i int) {
+	verifAssume(dt == lorawan.DwellTimeNoLimit || dt == lorawan.DwellTime400ms)
+	b1, _ := newAS923Band(rep, dt, -6600000, "-3")
+	b2, _ := newAS923Band(rep, dt, -6600000, "-3")
+	before, errb := b2.GetUplinkChannel(i)
+	_ = b1.AddChannel(f, lo, hi)
+	_ = b1.DisableUplinkChannelIndex(j)
+	_ = b1.EnableUplinkChannelIndex(j + 1)
+	after, erra := b2.GetUplinkChannel(i)
+	verifAssert((errb == nil) == (erra == nil), "same-outcome")
+	verifAssert(errb != nil || before == after, "unchanged")
+}
+
+func lemmaC10_isolation_AS923_4(rep bool, dt lorawan.DwellTime, f uint32, lo, hi, j, i int) {
+	verifAssume(dt == lorawan.DwellTimeNoLimit || dt == lorawan.DwellTime400ms)
+	b1, _ := newAS923Band(rep, dt, -5900000, "-4")
+	b2, _ := newAS923Band(rep, dt, -5900000, "-4")
+	before, errb := b2.GetUplinkChannel(i)
+	_ = b1.AddChannel(f, lo, hi)
+	_ = b1.DisableUplinkChannelIndex(j)
+	_ = b1.EnableUplinkChannelIndex(j + 1)
+	after, erra := b2.GetUplinkChannel(i)
+	verifAssert((errb == nil) == (erra == nil), "same-outcome")
+	verifAssert(errb != nil || before == after, "unchanged")
+}
+
+func lemmaC10_isolation_AU915(rep bool, dt lorawan.DwellTime, f uint32, lo, hi, j, i int) {
+	verifAssume(dt == lorawan.DwellTimeNoLimit || dt == lorawan.DwellTime400ms)
+	b1, _ := newAU915Band(rep, dt)
+	b2, _ := newAU915Band(rep, dt)
+	before, errb := b2.GetUplinkChannel(i)
+	_ = b1.AddChannel(f, lo, hi)
+	_ = b1.DisableUplinkChannelIndex(j)
+	_ = b1.EnableUplinkChannelIndex(j + 1)
+	after, erra := b2.GetUplinkChannel(i)
+	verifAssert((errb == nil) == (erra == nil), "same-outcome")
+	verifAssert(errb != nil || before == after, "unchanged")
+}
